@@ -22,8 +22,18 @@ def server_reply(have, style, mn, pref, mx):
     request (min, pref, max), or -1 when the server refuses.
       strict      : smallest available size s with pref <= s <= max, else refuse
       round-up    : as strict, else the largest available size in [min, pref)
-      openssh     : as round-up, else the fixed 2048-bit fallback group (OpenSSH's behaviour, bugzilla 2793)"""
+      openssh     : as round-up, else the fixed 2048-bit fallback group (OpenSSH's behaviour, bugzilla 2793)
+      nearest     : smallest available size >= pref, else the largest available size (range ignored)"""
     r = -1
+    if style == 'nearest':
+        # RFC 4419 section 3 read literally: the smallest group the server knows that is at least the preferred size, else the largest group it knows;
+        # min and max are not consulted, so a reply may lie outside the requested range
+        for s, h in zip(SIZES, have):
+            r = s_ite(h, s, r)
+        for s, h in reversed(list(zip(SIZES, have))):
+            if pref <= s:
+                r = s_ite(h, s, r)
+        return r
     # largest available in [min, pref): iterate ascending so that later (larger) overrides
     if style in ('round-up', 'openssh'):
         for s, h in zip(SIZES, have):
@@ -257,7 +267,7 @@ class PostProcess(Harness):
 def tasks(tier):
     q = tier == 'quick'
     T = []
-    for style in ('strict', 'round-up', 'openssh'):
+    for style in ('strict', 'round-up', 'openssh', 'nearest'):
         for alg in (G1, G256):
             for openssh in (False, True):
                 T.append(Loop(style, alg, openssh))
